@@ -1,5 +1,6 @@
-(** * HintProofs: size_hint is a true bound (C17) *)
+(** * HintProofs: size_hint is a true bound (C17), in [usize] arithmetic *)
 From FB Require Import Base Syntax World SlotMap Fub Unbounded Ordered Adapters Step Tactics.
+From Coq Require Import NArith.
 Set Implicit Arguments.
 
 (** what the stream will still yield: the items upstream will still produce (an upstream error of
@@ -7,38 +8,71 @@ Set Implicit Arguments.
 Definition still_to_yield (a : adapter) : nat :=
   match ad_up a with Some u => up_remaining (ad_try a) u | None => 0 end + q_len (ad_q a).
 
-(** an upstream hint (lo, hi) is honest when lo <= remaining <= hi; the scripted upstream
-    reports (remaining - slack_lo, remaining + slack_hi) *)
-Lemma up_hint_honest try u :
-  fst (up_hint try u) <= up_remaining try u
-  /\ match snd (up_hint try u) with Some h => up_remaining try u <= h | None => True end.
-Proof. unfold up_hint. simpl. split; [lia|]. destruct (us_hhi u); lia. Qed.
+(** [saturating_add] never exceeds the sum; [checked_add] is the sum when it answers *)
+Lemma sat_add_le wmax a b : (sat_add wmax a b <= a + b)%N.
+Proof. unfold sat_add. apply N.le_min_l. Qed.
 
-Theorem adapter_hint_brackets a :
-  fst (adapter_hint a) <= still_to_yield a
-  /\ match snd (adapter_hint a) with Some h => still_to_yield a <= h | None => True end.
+Lemma chk_add_some wmax a b h : chk_add wmax a b = Some h -> h = (a + b)%N.
+Proof. unfold chk_add. destruct (N.leb (a + b) wmax); intros E; inversion E; reflexivity. Qed.
+
+(** an upstream hint (lo, hi) is honest when lo <= remaining <= hi; the scripted upstream
+    reports (remaining - slack_lo, remaining + slack_hi saturating at the largest word) — honest
+    as long as the number of remaining items itself fits in a word *)
+Lemma up_hint_honest wmax try u :
+  (N.of_nat (up_remaining try u) <= wmax)%N ->
+  (fst (up_hint wmax try u) <= N.of_nat (up_remaining try u))%N
+  /\ match snd (up_hint wmax try u) with Some h => (N.of_nat (up_remaining try u) <= h)%N | None => True end.
 Proof.
-  unfold adapter_hint, still_to_yield. destruct (ad_up a) as [u|].
-  - pose proof (up_hint_honest (ad_try a) u) as [H1 H2].
-    destruct (up_hint (ad_try a) u) as [lo hi]. simpl in *. split; [lia|]. destruct hi; lia.
+  intros Hfit. unfold up_hint. simpl. split; [lia|]. destruct (us_hhi u) as [k|]; auto.
+  unfold sat_add. apply N.min_glb; [lia|exact Hfit].
+Qed.
+
+Section WithParams.
+Variable P : params.
+
+(** the adapters' hint brackets what will still be yielded, for every upstream slack (values
+    at the top of the word range included: the upper bound is dropped rather than wrapped) *)
+Theorem adapter_hint_brackets a :
+  (match ad_up a with Some u => N.of_nat (up_remaining (ad_try a) u) <= wmaxN P | None => True end)%N ->
+  (fst (adapter_hint P a) <= N.of_nat (still_to_yield a))%N
+  /\ match snd (adapter_hint P a) with Some h => (N.of_nat (still_to_yield a) <= h)%N | None => True end.
+Proof.
+  unfold adapter_hint, still_to_yield. destruct (ad_up a) as [u|]; intros Hfit.
+  - pose proof (up_hint_honest (ad_try a) u Hfit) as [H1 H2].
+    destruct (up_hint (wmaxN P) (ad_try a) u) as [lo hi]. simpl in *. split.
+    + pose proof (sat_add_le (wmaxN P) lo (N.of_nat (q_len (ad_q a)))). lia.
+    + destruct hi as [x|]; auto. destruct (chk_add (wmaxN P) x (N.of_nat (q_len (ad_q a)))) as [h|] eqn:E; auto.
+      apply chk_add_some in E. lia.
   - simpl. split; lia.
+Qed.
+
+(** the upper bound never wraps: when it is reported it is the exact sum *)
+Theorem adapter_hint_upper_is_exact_sum a u lo x h :
+  ad_up a = Some u -> up_hint (wmaxN P) (ad_try a) u = (lo, Some x) ->
+  snd (adapter_hint P a) = Some h -> h = (x + N.of_nat (q_len (ad_q a)))%N /\ (h <= wmaxN P)%N.
+Proof.
+  intros Hu Hh. unfold adapter_hint. rewrite Hu, Hh. simpl. intros E.
+  pose proof (chk_add_some _ _ _ E) as ->. split; auto.
+  unfold chk_add in E. destruct (N.leb_spec (x + N.of_nat (q_len (ad_q a))) (wmaxN P)); [auto|discriminate].
 Qed.
 
 (** once upstream is gone the hint is exact (after the fix: also for the try_ adapters) *)
 Theorem adapter_hint_exact_after_upstream_end a :
-  ad_up a = None -> adapter_hint a = (q_len (ad_q a), Some (q_len (ad_q a))).
+  ad_up a = None -> adapter_hint P a = (N.of_nat (q_len (ad_q a)), Some (N.of_nat (q_len (ad_q a)))).
 Proof. intros H. unfold adapter_hint. rewrite H. reflexivity. Qed.
 
 (** the collections report exactly the number they hold *)
 Theorem collection_hint_exact k o :
-  observe k = Some o ->
+  observe P k = Some o ->
   match k with
-  | CFub f => ob_hint o = Some (fub_len f, Some (fub_len f))
-  | CFu u => ob_hint o = Some (rem u, Some (rem u))
-  | CFob q => ob_hint o = Some (fob_len q, Some (fob_len q))
-  | CFo q => ob_hint o = Some (fo_len q, Some (fo_len q))
-  | CMb _ | CMu _ => ob_hint o = Some (0, None)
-  | CAd a => ob_hint o = Some (adapter_hint a)
+  | CFub f => ob_hint o = Some (N.of_nat (fub_len f), Some (N.of_nat (fub_len f)))
+  | CFu u => ob_hint o = Some (N.of_nat (rem u), Some (N.of_nat (rem u)))
+  | CFob q => ob_hint o = Some (N.of_nat (fob_len q), Some (N.of_nat (fob_len q)))
+  | CFo q => ob_hint o = Some (N.of_nat (fo_len q), Some (N.of_nat (fo_len q)))
+  | CMb _ | CMu _ => ob_hint o = Some (0%N, None)
+  | CAd a => ob_hint o = Some (adapter_hint P a)
   | _ => True
   end.
 Proof. destruct k; simpl; intros H; inversion H; subst; auto. Qed.
+
+End WithParams.
